@@ -74,9 +74,10 @@ def parseRel (kind : Kind) (k : Int) (s : String) : Option (Cfg × Wiring × Opt
   | _ => none
 
 /-- deposits of the fixed fake chain seen through the ranges handed to handler 0: nonce ↦ message ids -/
-def seenIds (h : List (Option Int × List Obs)) : List (Nat × String) :=
+def seenIds (kind : Kind) (h : List (Option Int × List Obs)) : List (Nat × String) :=
   (histCalls h).flatMap fun c =>
     if c.idx != 0 then [] else
+    if kind == .btc then (if c.s < 0 then [] else [(c.s.toNat, btcMsgId 1 (2 + c.s.toNat % 2) c.s)]) else
     (List.range (c.e - c.s + 1).toNat).filterMap fun (i : Nat) =>
       let b : Int := c.s + Int.ofNat i
       if b < 0 then none else some (b.toNat, msgId 1 (2 + b.toNat % 2) c.s c.e)
@@ -84,8 +85,59 @@ def seenIds (h : List (Option Int × List Obs)) : List (Nat × String) :=
 def idsOf (xs : List (Nat × String)) (n : Nat) : String :=
   "+".intercalate ((((xs.filter (·.1 == n)).map (·.2)).eraseDups).mergeSort (· ≤ ·))
 
+/-- groups of one range under a constant id prefix (`retry-` for the retry handlers) -/
+def showGroupsP (pre : String) (src : Nat) (s e : Int) (ds : List Dep) : String :=
+  let m := groupLoop src s e ds
+  let dd := (m.map (·.1)).mergeSort (· ≤ ·)
+  joinOr (dd.map fun d =>
+    toString d ++ "=" ++ ",".intercalate ((lookupD m d).map fun x => s!"{x.1}.{pre}{x.2}")) ";"
+
+def idsVerdict (pre tag : String) (src s e ds impl : String) : Verdict := Id.run do
+  let some src := src.toNat? | return bad
+  let some s := s.toInt? | return bad
+  let some e := e.toInt? | return bad
+  let some ds := ((items ds ",").zipIdx.mapM fun (x, i) => parseDep i x) | return bad
+  let m := showGroupsP pre src s e ds
+  -- property: one result for every instance/history, each group = the surviving deposits to that destination in log
+  -- order, every id = prefix ++ the range's message id
+  let ok := !(impl.contains '|') && match parseGroups impl with
+    | some gs =>
+      gs.all (fun g => g.2.all fun x => x.2.startsWith pre) &&
+      groupsOk src s e ds (gs.map fun g => (g.1, g.2.map fun x => (x.1, (x.2.drop pre.length).toString)))
+    | none => false
+  return ⟨m, ok, s!"{tag}:n={min ds.length 4}:dests={min (dests ds).length 3}"⟩
+
 def handle (op : String) (args : List String) (impl : String) : Option Verdict :=
   match op, args with
+  | "subsession", [msgId, statuses] => some <| Id.run do
+    let pending := (items statuses ",").any (· == "p")
+    -- the Substrate executor signs a delivery under its message id — for every relayer, fresh or not
+    let m := if pending then subSessionId msgId else "-"
+    return ⟨m, impl == m, s!"subsession:pending={pending}:n={min (items statuses ",").length 3}"⟩
+  | "btcsession", [_msgId, n, np] => some <| Id.run do
+    let some n := n.toNat? | return bad
+    -- per-input session ids = hex sighashes: identical for every relayer / history, one per input
+    return ⟨s!"same:{n}", impl.startsWith "same:", s!"btcsession:inputs={n}:props={np}"⟩
+  | "subids", [src, s, e, ds] => some (idsVerdict "" "subids" src s e ds impl)
+  | "subretryids", [src, s, e, _h, ds] => some (idsVerdict "retry-" "subretryids" src s e ds impl)
+  | "evmretry1ids", [src, s, e, ds] => some (idsVerdict "retry-" "evmretry1ids" src s e ds impl)
+  | "evmretry2ids", [dom, _s, _e, evs] => some <| Id.run do
+    let some dom := dom.toNat? | return bad
+    let some es := (items evs ",").mapM (fun it => match it.splitOn "." with
+      | [a, b, h] => do pure ((← a.toNat?), (← b.toNat?), (← h.toInt?))
+      | _ => none) | return bad
+    let lines := (es.map fun (a, b, h) => s!"{retryV2MsgId a b}/{dom}/{a}/{a}.{b}.{h}").mergeSort (· ≤ ·)
+    -- property: one message per event, its id a function of the event's own (source, destination) only
+    let its := items impl ","
+    let ok := !(impl.contains '|') && its.length == es.length && its.all fun it =>
+      match it.splitOn "/" with
+      | [id, _, _, ev] => (match ev.splitOn "." with
+        | [a, b, _] => (match a.toNat?, b.toNat? with
+          | some a, some b => id == retryV2MsgId a b
+          | _, _ => false)
+        | _ => false)
+      | _ => false
+    return ⟨joinOr lines ",", ok, s!"evmretry2ids:n={min es.length 3}"⟩
   | "btccredit", [block, rs, feeAddr, txs] => some <| Id.run do
     let some block := block.toInt? | return bad
     let some rs := (items rs ";").mapM parseRes | return bad
@@ -94,7 +146,13 @@ def handle (op : String) (args : List String) (impl : String) : Option Verdict :
     let m := showBtc (btcBlock 1 block feeAddr rs txs)
     -- property: one result whatever the map iteration order, and every credited resource is one the transaction pays
     let multi := txs.any fun tx => (rs.filter fun r => (decode feeAddr tx r).isSome).length > 1
-    let ok := !(impl.contains '|') && impl != "err"
+    -- … and every message id is the function `source-destination-block` of the chain data
+    let idsOk := (items impl ";").all fun g => match g.splitOn "=" with
+      | [d, ms] => (match d.toNat? with
+        | some d => (ms.splitOn ",").all fun x => (x.splitOn ".").getLast? == some (btcMsgId 1 d block)
+        | none => false)
+      | _ => false
+    let ok := !(impl.contains '|') && impl != "err" && idsOk
     return ⟨m, ok, s!"btccredit:txs={min txs.length 3}:res={min rs.length 3}:multi={multi}:any={m != "-"}"⟩
   | "btcnonce", [_, _] => some ⟨"same", impl == "same", "btcnonce"⟩
   | "evmids", [src, s, e, ds] => some <| Id.run do
@@ -114,7 +172,7 @@ def handle (op : String) (args : List String) (impl : String) : Option Verdict :
     let some (cfgB, wB, stB, lsB) := parseRel kind k rb | return bad
     let hA := runAll cfgA wA stA lsA
     let hB := runAll cfgB wB stB lsB
-    let (iA, iB) := if kind == .btc then ([], []) else (seenIds hA, seenIds hB)
+    let (iA, iB) := (seenIds kind hA, seenIds kind hB)
     let common := (((iA.map (·.1)).filter fun n => iB.any (·.1 == n)).eraseDups).mergeSort (· ≤ ·)
     let ids := joinOr (common.map fun n => s!"{n}={idsOf iA n}/{idsOf iB n}") ","
     let m := s!"A:{showHist hA}#B:{showHist hB}#ids:{ids}"
